@@ -93,6 +93,69 @@ theorem splitHostmask_of_decomp {s X Y : Str} (hs : s = X ++ '@' :: Y) (hb : '!'
   obtain ⟨n, u, h4, _, _⟩ := rsplit1_some_of_mem '!' r hbr
   simp [splitHostmask, h1, h4]
 
+theorem split1_spec {c : Char} {s a b : Str} (h : split1 c s = some (a, b)) : s = a ++ c :: b ∧ c ∉ a := by
+  induction s generalizing a b with
+  | nil => simp [split1] at h
+  | cons x xs ih =>
+    simp only [split1] at h
+    split at h
+    · rename_i hx
+      injection h with h; injection h with h1 h2
+      subst h1; subst h2; subst hx
+      exact ⟨rfl, by simp⟩
+    · rename_i hx
+      cases hr : split1 c xs with
+      | none => rw [hr] at h; simp at h
+      | some p =>
+        obtain ⟨a', b'⟩ := p
+        rw [hr] at h
+        injection h with h; injection h with h1 h2
+        subst h1; subst h2
+        obtain ⟨e, hn⟩ := ih hr
+        refine ⟨by rw [e]; rfl, ?_⟩
+        simp only [List.mem_cons, not_or]
+        exact ⟨fun e' => hx e'.symm, hn⟩
+
+theorem rsplit1_spec {c : Char} {s r t : Str} (h : rsplit1 c s = some (r, t)) : s = r ++ c :: t ∧ c ∉ t := by
+  unfold rsplit1 at h
+  cases hs : split1 c s.reverse with
+  | none => rw [hs] at h; simp at h
+  | some p =>
+    obtain ⟨a, b⟩ := p
+    rw [hs] at h
+    simp only [Option.map_some, Option.some.injEq, Prod.mk.injEq] at h
+    obtain ⟨h1, h2⟩ := h
+    obtain ⟨e, hn⟩ := split1_spec hs
+    subst h1; subst h2
+    have := congrArg List.reverse e
+    simp only [List.reverse_reverse, List.reverse_append, List.reverse_cons, List.append_assoc,
+      List.singleton_append] at this
+    exact ⟨this, by simpa using hn⟩
+
+/-- what `splitHostmask` returns re-joins to the hostmask (`joinHostmask ∘ splitHostmask = id`),
+the host contains no `@` and the user no `!` -/
+theorem splitHostmask_join {s n u h : Str} (hs : splitHostmask s = some (n, u, h)) :
+    s = n ++ '!' :: u ++ '@' :: h ∧ '@' ∉ h ∧ '!' ∉ u := by
+  unfold splitHostmask at hs
+  cases h1 : rsplit1 '@' s with
+  | none => rw [h1] at hs; simp at hs
+  | some p =>
+    obtain ⟨rest, host⟩ := p
+    rw [h1] at hs
+    simp only at hs
+    cases h2 : rsplit1 '!' rest with
+    | none => rw [h2] at hs; simp at hs
+    | some q =>
+      obtain ⟨nick, user⟩ := q
+      rw [h2] at hs
+      simp only [Option.some.injEq, Prod.mk.injEq] at hs
+      obtain ⟨e1, e2, e3⟩ := hs
+      subst e1; subst e2; subst e3
+      obtain ⟨ea, ha⟩ := rsplit1_spec h1
+      obtain ⟨eb, hb⟩ := rsplit1_spec h2
+      refine ⟨?_, ha, hb⟩
+      rw [ea, eb]
+
 theorem hostFields_isSome (p : Str) : (hostFields p).isSome = true := by
   unfold hostFields
   split
